@@ -126,13 +126,28 @@ theorem mu_finish_le (cfg : Cfg) (s : St) (r : Result) : mu cfg (finish cfg s r)
   have := finish_rank_le cfg s r
   simp [mu]; omega
 
-theorem b2n_ite_pooled (c : Conn) :
-    b2n ((if c = Conn.owned then Conn.pooled else c) == Conn.owned) = 0 := by
-  split <;> simp_all (config := {decide := true}) [b2n]
+@[simp] theorem release_owned (c : Conn) : (c.release = .owned) = False := by cases c <;> simp [Conn.release]
+@[simp] theorem release_ready (c : Conn) : (c.release = .ready) = (c = .ready) := by cases c <;> simp [Conn.release]
+@[simp] theorem release_bgDial (c : Conn) : (c.release = .bgDial) = (c = .bgDial) := by cases c <;> simp [Conn.release]
+@[simp] theorem release_closed (c : Conn) : (c.release = .closed) = (c = .closed) := by cases c <;> simp [Conn.release]
+@[simp] theorem release_none (c : Conn) : (c.release = .none) = (c = .none) := by cases c <;> simp [Conn.release]
+@[simp] theorem release_beq_owned (c : Conn) : (c.release == .owned) = false := by cases c <;> decide
+@[simp] theorem release_beq_ready (c : Conn) : (c.release == .ready) = (c == .ready) := by cases c <;> decide
+@[simp] theorem unready_ready (c : Conn) : (c.unready = .ready) = False := by cases c <;> simp [Conn.unready]
+@[simp] theorem unready_owned (c : Conn) : (c.unready = .owned) = (c = .owned) := by cases c <;> simp [Conn.unready]
+@[simp] theorem unready_bgDial (c : Conn) : (c.unready = .bgDial) = (c = .bgDial) := by cases c <;> simp [Conn.unready]
+@[simp] theorem unready_closed (c : Conn) : (c.unready = .closed) = (c = .closed) := by cases c <;> simp [Conn.unready]
+@[simp] theorem unready_none (c : Conn) : (c.unready = .none) = (c = .none) := by cases c <;> simp [Conn.unready]
+@[simp] theorem unready_beq_owned (c : Conn) : (c.unready == .owned) = (c == .owned) := by cases c <;> decide
+@[simp] theorem unready_beq_ready (c : Conn) : (c.unready == .ready) = false := by cases c <;> decide
+@[simp] theorem kill_open (t : Stream) : (t.kill = .open) = False := by cases t <;> simp [Stream.kill]
+@[simp] theorem kill_reset (t : Stream) : (t.kill = .reset) = (t = .open ∨ t = .reset) := by cases t <;> simp [Stream.kill]
+@[simp] theorem kill_none (t : Stream) : (t.kill = .none) = (t = .none) := by cases t <;> simp [Stream.kill]
+@[simp] theorem kill_closed (t : Stream) : (t.kill = .closed) = (t = .closed) := by cases t <;> simp [Stream.kill]
+@[simp] theorem kill_bne_open (t : Stream) : (t.kill != .open) = true := by cases t <;> decide
 
-theorem b2n_ite_ready (c : Conn) :
-    b2n ((if c = Conn.ready then Conn.pooled else c) == Conn.owned) ≤ b2n (c == Conn.owned) := by
-  split <;> simp_all (config := {decide := true})
+@[simp] theorem cb_closes (r : Res) : r.closeBody.closes = if r.bodyOpen then r.closes + 1 else r.closes := by
+  unfold Res.closeBody; split <;> simp_all
 
 /-- every internal action strictly decreases the measure — in any state whatsoever -/
 theorem mu_dec (cfg : Cfg) (s : St) (a : Act) (h : guard cfg s a = true) :
@@ -158,7 +173,6 @@ theorem mu_dec (cfg : Cfg) (s : St) (a : Act) (h : guard cfg s a = true) :
     have h4 := preConn_not_inflight h1
     simp only [apply]
     refine Nat.lt_of_le_of_lt (mu_finish_le _ _ _) ?_
-    have := b2n_ite_ready s.res.conn
     have := hb s.res.bodyOpen
     simp [mu, rest, h3, h4]
     omega
@@ -212,8 +226,7 @@ theorem mu_dec (cfg : Cfg) (s : St) (a : Act) (h : guard cfg s a = true) :
     omega
   case h2WriterAbort =>
     obtain ⟨⟨⟨h1, h2⟩, h3⟩, h4⟩ := h
-    have := b2n_ite_pooled s.res.conn
-    simp [mu, rest, apply, h1, h2, h4, this]
+    simp [mu, rest, apply, h1, h2, h4]
     have := hb s.res.bodyOpen
     omega
   case h2BodyReadFail =>
@@ -236,16 +249,14 @@ theorem mu_dec (cfg : Cfg) (s : St) (a : Act) (h : guard cfg s a = true) :
     have h5 := rank_inflight h2
     simp only [apply]
     refine Nat.lt_of_le_of_lt (mu_finish_le _ _ _) ?_
-    have := b2n_ite_pooled s.res.conn
-    simp [mu, rest, h5, this]
+    simp [mu, rest, h5]
     omega
   case h3BodyReadFail =>
     obtain ⟨⟨h1, h2⟩, h3⟩ := h
     have h5 := rank_body h2
     simp only [apply]
     refine Nat.lt_of_le_of_lt (mu_finish_le _ _ _) ?_
-    have := b2n_ite_pooled s.res.conn
-    simp [mu, rest, h5, this]
+    simp [mu, rest, h5]
     omega
   case sleepWake =>
     obtain ⟨⟨h1, h2⟩, h3⟩ := h
